@@ -124,13 +124,13 @@ def source(tier):
         nn0 = NN if a0 == 7 else 1
         if tier == 'quick' or a0 not in (3, 7, 8):
             out.append(TEMPLATE.format(TAG=f'{CON[a0]}', NCON=NCON, NP=NP, NN=NN, NN0=nn0, A0=a0, EXTRA_ARGS='',
-                                       EXTRA_PRE='True', A2='(a1 + 4) % %d' % NCON, B2='(b1 + 1) % %d' % NP,
-                                       N2='(n1 + 3) % %d' % NN))
+                                       EXTRA_PRE='True', A2=f'(a1 + 4) % {NCON}', B2=f'(b1 + 1) % {NP}',
+                                       N2=f'(n1 + 3) % {NN}'))
             tags.append(CON[a0])
         else:
             for a2 in range(NCON):
                 out.append(TEMPLATE.format(TAG=f'{CON[a0]}_{CON[a2]}', NCON=NCON, NP=NP, NN=NN, NN0=nn0, A0=a0,
                                            EXTRA_ARGS='b2: int, ', EXTRA_PRE=f'0 <= b2 < {NP}', A2=a2, B2='b2',
-                                           N2='(n1 + 3) % %d' % NN))
+                                           N2=f'(n1 + 3) % {NN}'))
                 tags.append(f'{CON[a0]}_{CON[a2]}')
     return '\n'.join(out), tags
